@@ -6,7 +6,12 @@
 #define VM_MAXBLK 48
 #endif
 struct vm_blk { void* p; uint64_t n; int live; int adopted; } vm_blks[VM_MAXBLK];
+/* under AddressSanitizer (C13) blocks keep their exact size: the sanitizer's red zones see reads as well as writes */
+#ifdef __SANITIZE_ADDRESS__
+#define VM_GUARD 0
+#else
 #define VM_GUARD 2048
+#endif
 #include <string.h>
 int vm_nblk; uint64_t vm_cur, vm_peak; int vm_alloc_count, vm_fail_at = -1, vm_errors;
 #ifdef __CPROVER__
